@@ -197,13 +197,15 @@ type vfC14MState struct {
 	Peers map[string]vfC14MPeer
 	N     int
 	Ph    int
+	DK    string // decay function of the decaying tag d
+	BK    string // its bump function
 }
 
 // layout printed by C14_MC!St: [ {peer: [kind, conns, tags, value, age, prot, decaying]}, connCount, phase, dph, trim in progress ]
 func vfC14ParseState(raw json.RawMessage) (vfC14MState, error) {
 	var st vfC14MState
 	var top []json.RawMessage
-	if err := json.Unmarshal(raw, &top); err != nil || len(top) != 5 {
+	if err := json.Unmarshal(raw, &top); err != nil || len(top) != 6 {
 		return st, fmt.Errorf("state layout: %v %s", err, string(raw))
 	}
 	var pm map[string][]json.RawMessage
@@ -216,6 +218,12 @@ func vfC14ParseState(raw json.RawMessage) (vfC14MState, error) {
 	if err := json.Unmarshal(top[2], &st.Ph); err != nil {
 		return st, err
 	}
+	var dcfg []any
+	if err := json.Unmarshal(top[5], &dcfg); err != nil || len(dcfg) != 3 {
+		return st, fmt.Errorf("decaying tag layout: %s", string(top[5]))
+	}
+	st.DK, _ = dcfg[0].(string)
+	st.BK, _ = dcfg[1].(string)
 	st.Peers = map[string]vfC14MPeer{}
 	for p, f := range pm {
 		if len(f) != 7 {
@@ -265,7 +273,45 @@ type vfC14Sys struct {
 	skip   map[string]bool            // peers compare() leaves out (temporary entries a racing trim may or may not reach)
 }
 
-func vfC14New(cfg vfC14Cfg) (*vfC14Sys, error) {
+// the decay and bump functions the spec's DecayRes / BumpRes stand for
+func vfC14DecayFn(kind string) (connmgr.DecayFn, error) {
+	switch kind {
+	case "fixed1":
+		return connmgr.DecayFixed(1), nil
+	case "fixed2":
+		return connmgr.DecayFixed(2), nil
+	case "half":
+		return connmgr.DecayLinear(0.5), nil
+	case "none":
+		return connmgr.DecayNone(), nil
+	case "residual": // removal announced together with a non-zero `after`
+		return func(v connmgr.DecayingValue) (int, bool) {
+			if v.Value <= 1 {
+				return 1, true
+			}
+			return v.Value - 1, false
+		}, nil
+	case "zerokeep": // value 0 but the tag stays
+		return func(connmgr.DecayingValue) (int, bool) { return 0, false }, nil
+	}
+	return nil, fmt.Errorf("unknown decay kind %q", kind)
+}
+
+func vfC14BumpFn(kind string, max int) (connmgr.BumpFn, error) {
+	switch kind {
+	case "bounded":
+		return connmgr.BumpSumBounded(0, max), nil
+	case "unbounded":
+		return connmgr.BumpSumUnbounded(), nil
+	case "overwrite":
+		return connmgr.BumpOverwrite(), nil
+	}
+	return nil, fmt.Errorf("unknown bump kind %q", kind)
+}
+
+func vfC14New(cfg vfC14Cfg) (*vfC14Sys, error) { return vfC14NewKinds(cfg, "fixed1", "bounded") }
+
+func vfC14NewKinds(cfg vfC14Cfg, dk, bk string) (*vfC14Sys, error) {
 	s := &vfC14Sys{cfg: cfg, clk: clock.NewMock(), pid: map[string]peer.ID{}, conns: map[string]*vfC14Conn{},
 		byAddr: map[string]string{}, sink: &vfC14Sink{}, lconns: map[string]map[string]bool{},
 		lfirst: map[string]time.Time{}, lprot: map[string]map[string]bool{}, protU: []string{"x", "y"}}
@@ -310,7 +356,13 @@ func vfC14New(cfg vfC14Cfg) (*vfC14Sys, error) {
 	}
 	s.cm = cm
 	if cfg.DecMax > 0 {
-		s.dtag, err = cm.RegisterDecayingTag("d", time.Duration(cfg.DecEvry)*vfC14Unit, connmgr.DecayFixed(1), connmgr.BumpSumBounded(0, cfg.DecMax))
+		dfn, err1 := vfC14DecayFn(dk)
+		bfn, err2 := vfC14BumpFn(bk, cfg.DecMax)
+		if err1 != nil || err2 != nil {
+			cm.Close()
+			return nil, fmt.Errorf("%v %v", err1, err2)
+		}
+		s.dtag, err = cm.RegisterDecayingTag("d", time.Duration(cfg.DecEvry)*vfC14Unit, dfn, bfn)
 		if err != nil {
 			cm.Close()
 			return nil, err
@@ -506,13 +558,20 @@ func (s *vfC14Sys) step(op vfh.Op) (string, string, any, any) {
 		// the resulting tag value is compared with the model's in compare()
 		s.cm.UpsertTag(s.pid[op.S("p")], op.S("t"), func(x int) int { return x + 1 })
 	case "bump":
-		if err := s.dtag.Bump(s.pid[op.S("p")], 1); err != nil {
-			return "MACHINERY", "Bump: " + err.Error(), nil, nil
-		}
+		err := s.dtag.Bump(s.pid[op.S("p")], op.I("dl"))
 		synctest.Wait() // the decayer's loop has applied the command
+		if (err != nil) != op.B("err") {
+			return "L2:decay-api", fmt.Sprintf("Bump error %v", err), op.B("err"), err != nil
+		}
 	case "dremove":
-		if err := s.dtag.Remove(s.pid[op.S("p")]); err != nil {
-			return "MACHINERY", "Remove: " + err.Error(), nil, nil
+		err := s.dtag.Remove(s.pid[op.S("p")])
+		synctest.Wait()
+		if (err != nil) != op.B("err") {
+			return "L2:decay-api", fmt.Sprintf("Remove error %v", err), op.B("err"), err != nil
+		}
+	case "dclose":
+		if err := s.dtag.Close(); err != nil {
+			return "MACHINERY", "Close: " + err.Error(), nil, nil
 		}
 		synctest.Wait()
 	case "protect":
@@ -717,7 +776,11 @@ func TestVerifC14Replay(t *testing.T) {
 				stats := map[string]int{}
 				for _, w := range walks {
 					synctest.Test(t, func(t *testing.T) {
-						sys, err := vfC14New(cfg)
+						ini, err := vfC14ParseState(w.Init)
+						if err != nil {
+							t.Fatal(err)
+						}
+						sys, err := vfC14NewKinds(cfg, ini.DK, ini.BK)
 						if err != nil {
 							t.Fatal(err)
 						}
@@ -768,7 +831,7 @@ func TestVerifC14Replay(t *testing.T) {
 								continue
 							}
 							mm := vfh.Mismatch{Class: cls, What: what, Walk: w.Walk, Step: i, Expected: exp, Got: got,
-								Prefix: append([]vfh.Op{}, prefix...), Cfg: map[string]any{"instance": cfg.Name, "conf": cfg, "file": filepath.Base(f), "unit": vfC14Unit.String()}}
+								Prefix: append([]vfh.Op{}, prefix...), Cfg: map[string]any{"instance": cfg.Name, "conf": cfg, "file": filepath.Base(f), "unit": vfC14Unit.String(), "decay_fn": ini.DK, "bump_fn": ini.BK}}
 							if strings.HasPrefix(cls, "L2:") {
 								if !degraded {
 									degraded = true
@@ -1025,11 +1088,6 @@ func vfC14StressRound(t *testing.T, seed int64, phase int) (string, string, any,
 			lh := map[string]bool{}
 			for i := 0; i < nOps; i++ {
 				p := peers[grnd.Intn(len(peers))]
-				if phase >= 2 && p.class != "anchor" && p.class != "prot" {
-					// once the clock moves, an early tag's temporary entry can expire and be pruned by two
-					// overlapping trims: that history class has its own steered scenario (TestVerifC14Overlap)
-					continue
-				}
 				switch grnd.Intn(3) {
 				case 0:
 					v := grnd.Intn(7) - 2
@@ -1066,9 +1124,6 @@ func vfC14StressRound(t *testing.T, seed int64, phase int) (string, string, any,
 			for i := 0; i < nOps; i++ {
 				p := peers[grnd.Intn(len(peers))]
 				d := grnd.Intn(3) + 1
-				if phase >= 2 && p.class != "anchor" && p.class != "prot" {
-					continue // see the tag goroutines
-				}
 				if dtag.Bump(p.id, d) == nil && p.class == "anchor" {
 					local[p.name] += d
 				}
@@ -1717,3 +1772,352 @@ func TestVerifC14Overlap(t *testing.T) {
 		}
 	}
 }
+
+// ---------------------------------------------------------------------------------------------
+// several decaying tags per peer, every preset decay/bump function: ledger-based histories
+
+// vfC14DTag is one registered decaying tag together with the ledger's copy of its schedule.  The decay
+// and bump functions are INPUTS of the manager, so the ledger calls the very same functions and applies
+// the documented contract itself: bump -> the value becomes bumpFn(value, delta); decay round -> (after,
+// rm) = decayFn(value): the tag is erased if rm (whatever `after` is), otherwise its value is `after`.
+type vfC14DTag struct {
+	name     string
+	tag      connmgr.DecayingTag
+	decay    connmgr.DecayFn
+	bump     connmgr.BumpFn
+	interval time.Duration
+	next     time.Time
+	closed   bool
+	dkind    string
+}
+
+type vfC14DPeer struct {
+	id    peer.ID
+	name  string
+	conn  *vfC14Conn
+	conn2 *vfC14Conn
+	open  map[string]bool
+	exist bool // the manager has an entry (connected or temporary)
+	plain map[string]int
+	dec   map[string]*connmgr.DecayingValue
+}
+
+func TestVerifC14Decay(t *testing.T) {
+	vfC14Silence()
+	res := vfh.NewResult()
+	defer func() {
+		if err := res.Write(); err != nil {
+			t.Fatal(err)
+		}
+	}()
+	res.Rule = "one case = one seeded history on 3 peers with 4 decaying tags (decay fn drawn from DecayFixed(k) incl. overshoot, DecayLinear, DecayNone, DecayExpireWhenInactive, custom (after#0, rm), custom (0, keep); bump fn from BumpSumUnbounded, BumpSumBounded, BumpOverwrite; intervals 1-3 units) and 2 plain tags: Bump/Remove/Close, TagPeer/UntagPeer/UpsertTag, Connected/Disconnected and clock units; after every step GetTagInfo(p).Value and .Tags must equal the ledger (plain tags + current decaying values; an erased tag absent); steps where a command is left racing a decay tick only require Value == sum of Tags and every listed decaying value to be one the two orders can produce"
+	histories := 150
+	if vfh.Thorough() {
+		histories = 1500
+	}
+	for h := 0; h < histories && res.NMismatch() == 0; h++ {
+		synctest.Test(t, func(t *testing.T) {
+			vfC14DecayHistory(t, res, vfh.Seed()*7_000_003+int64(h), h)
+		})
+	}
+}
+
+func vfC14DecayHistory(t *testing.T, res *vfh.Result, seed int64, h int) {
+	rnd := rand.New(rand.NewSource(seed))
+	clk := clock.NewMock()
+	clk.Set(time.Unix(1_700_000_000, 0))
+	cm, err := NewConnManager(100, 200, WithClock(clk), WithGracePeriod(vfC14Unit), WithSilencePeriod(1_000_000*time.Hour),
+		DecayerConfig(&DecayerCfg{Resolution: vfC14Unit, Clock: clk}))
+	if err != nil {
+		t.Fatal(err)
+	}
+	defer cm.Close()
+	synctest.Wait()
+	start := clk.Now()
+	sink := &vfC14Sink{}
+	type dk struct {
+		name string
+		fn   connmgr.DecayFn
+	}
+	k := 2 + rnd.Intn(4)
+	decays := []dk{
+		{"fixed(1)", connmgr.DecayFixed(1)},
+		{fmt.Sprintf("fixed(%d)", k), connmgr.DecayFixed(k)}, // overshoots below zero unless k divides the value
+		{"linear(0.5)", connmgr.DecayLinear(0.5)},
+		{"linear(0.3)", connmgr.DecayLinear(0.3)},
+		{"none", connmgr.DecayNone()},
+		{"expire", connmgr.DecayExpireWhenInactive(2 * vfC14Unit)},
+		{"residual", func(v connmgr.DecayingValue) (int, bool) { return v.Value - 2, v.Value < 4 }}, // rm with after in -1..1
+		{"zerokeep", func(v connmgr.DecayingValue) (int, bool) { return 0, false }},
+	}
+	bumps := []connmgr.BumpFn{connmgr.BumpSumUnbounded(), connmgr.BumpSumBounded(-3, 9), connmgr.BumpOverwrite()}
+	var tags []*vfC14DTag
+	for i := 0; i < 4; i++ {
+		d := decays[rnd.Intn(len(decays))]
+		if i == 0 {
+			d = decays[[]int{1, 6}[h%2]] // every history has a function that erases with a non-zero `after`
+		}
+		dt := &vfC14DTag{name: fmt.Sprintf("d%d", i), decay: d.fn, dkind: d.name, bump: bumps[rnd.Intn(len(bumps))], interval: time.Duration(1+rnd.Intn(3)) * vfC14Unit}
+		dt.tag, err = cm.RegisterDecayingTag(dt.name, dt.interval, dt.decay, dt.bump)
+		if err != nil {
+			t.Fatal(err)
+		}
+		dt.next = start.Add(dt.interval)
+		tags = append(tags, dt)
+	}
+	var peers []*vfC14DPeer
+	for i := 0; i < 3; i++ {
+		name := fmt.Sprintf("q%d", i)
+		p := &vfC14DPeer{id: peer.ID("vfC14d-" + name + string([]byte{byte(i % 2)})), name: name, open: map[string]bool{}, plain: map[string]int{}, dec: map[string]*connmgr.DecayingValue{}}
+		a1, _ := ma.NewMultiaddr(fmt.Sprintf("/ip4/10.17.0.%d/tcp/1", 2*i+1))
+		a2, _ := ma.NewMultiaddr(fmt.Sprintf("/ip4/10.17.0.%d/tcp/1", 2*i+2))
+		p.conn = &vfC14Conn{name: name + "a", pname: name, pid: p.id, addr: a1, sink: sink}
+		p.conn2 = &vfC14Conn{name: name + "b", pname: name, pid: p.id, addr: a2, sink: sink}
+		peers = append(peers, p)
+	}
+	nf := cm.Notifee()
+	var hist []string
+	say := func(f string, a ...any) { hist = append(hist, fmt.Sprintf(f, a...)) }
+	drop := func(p *vfC14DPeer) {
+		p.exist, p.plain, p.dec = false, map[string]int{}, map[string]*connmgr.DecayingValue{}
+	}
+	// the ledger's decay round at time now
+	round := func(now time.Time) {
+		for _, dt := range tags {
+			if dt.closed || dt.next.After(now) {
+				continue
+			}
+			for _, p := range peers {
+				v, ok := p.dec[dt.name]
+				if !ok {
+					continue
+				}
+				after, rm := dt.decay(*v)
+				if rm {
+					if after != 0 {
+						res.Inc("removals_with_residual", 1)
+					}
+					delete(p.dec, dt.name)
+				} else {
+					v.Value, v.LastVisit = after, now
+				}
+			}
+			dt.next = dt.next.Add(dt.interval)
+		}
+	}
+	applyBump := func(p *vfC14DPeer, dt *vfC14DTag, delta int, now time.Time) {
+		p.exist = true
+		v, ok := p.dec[dt.name]
+		if !ok {
+			v = &connmgr.DecayingValue{Tag: dt.tag, Peer: p.id, LastVisit: now, Added: now}
+			p.dec[dt.name] = v
+		}
+		v.Value, v.LastVisit = dt.bump(*v, delta), now
+	}
+	fail := func(cls, what string, exp, got any, step int) {
+		res.AddMismatch(vfh.Mismatch{Class: cls, What: what, Walk: h, Step: step, Expected: exp, Got: got, Prefix: hist,
+			Cfg: map[string]any{"seed": seed, "tags": func() (o []string) {
+				for _, dt := range tags {
+					o = append(o, fmt.Sprintf("%s: decay %s every %s", dt.name, dt.dkind, dt.interval))
+				}
+				return
+			}()}})
+	}
+	// audit; racing != nil: the decaying values of these (peer, tag) pairs may be either of two outcomes
+	audit := func(step int, alt map[string][]int) bool {
+		for _, p := range peers {
+			ti := cm.GetTagInfo(p.id)
+			if ti == nil {
+				if p.exist {
+					fail("L2:temp-entry", "no entry for "+p.name, true, false, step)
+					return false
+				}
+				continue
+			}
+			sum := 0
+			for _, v := range ti.Tags {
+				sum += v
+			}
+			if sum != ti.Value {
+				fail("tag-total", fmt.Sprintf("GetTagInfo(%s).Value is not the sum of its plain and decaying tags %v (an erased decaying tag must contribute nothing)", p.name, ti.Tags), sum, ti.Value, step)
+				return false
+			}
+			want := map[string]int{}
+			for k, v := range p.plain {
+				want[k] = v
+			}
+			for k, v := range p.dec {
+				want[k] = v.Value
+			}
+			for name, outs := range alt { // resynchronise the ledger on a raced pair with what happened
+				if !strings.HasPrefix(name, p.name+"/") {
+					continue
+				}
+				tn := strings.TrimPrefix(name, p.name+"/")
+				got, has := ti.Tags[tn]
+				okAlt := false
+				for _, o := range outs {
+					if (o == vfC14Absent && !has) || (has && o == got) {
+						okAlt = true
+					}
+				}
+				if !okAlt {
+					fail("tag-total", fmt.Sprintf("decaying tag %s of %s after a command racing a decay round: neither order explains it", tn, p.name), outs, ti.Tags, step)
+					return false
+				}
+				if has {
+					want[tn] = got
+					if v, ok := p.dec[tn]; ok {
+						v.Value = got
+					} else {
+						p.dec[tn] = &connmgr.DecayingValue{Peer: p.id, Value: got, LastVisit: clk.Now(), Added: clk.Now()}
+					}
+				} else {
+					delete(want, tn)
+					delete(p.dec, tn)
+				}
+			}
+			if fmt.Sprint(ti.Tags) != fmt.Sprint(want) {
+				fail("tag-total", fmt.Sprintf("tags of %s differ from what the tag operations, bumps and decay rounds delivered so far imply", p.name), want, ti.Tags, step)
+				return false
+			}
+		}
+		return true
+	}
+	steps := 60
+	for i := 0; i < steps; i++ {
+		p := peers[rnd.Intn(len(peers))]
+		dt := tags[rnd.Intn(len(tags))]
+		now := clk.Now()
+		var alt map[string][]int
+		switch c := rnd.Intn(20); {
+		case c < 6:
+			delta := rnd.Intn(9) - 1
+			say("%s.Bump(%s, %d)", dt.name, p.name, delta)
+			if err := dt.tag.Bump(p.id, delta); (err != nil) != dt.closed {
+				fail("L2:decay-api", "Bump error", dt.closed, err != nil, i)
+				return
+			}
+			if !dt.closed {
+				applyBump(p, dt, delta, now)
+			}
+		case c < 8:
+			say("%s.Remove(%s)", dt.name, p.name)
+			if err := dt.tag.Remove(p.id); (err != nil) != dt.closed {
+				fail("L2:decay-api", "Remove error", dt.closed, err != nil, i)
+				return
+			}
+			if !dt.closed {
+				p.exist = true // the loop creates a temporary entry before looking for the value
+				delete(p.dec, dt.name)
+			}
+		case c < 9 && i > steps/2:
+			say("%s.Close()", dt.name)
+			dt.tag.Close()
+			res.Inc("closes", 1)
+			dt.closed = true
+			for _, q := range peers {
+				delete(q.dec, dt.name)
+			}
+		case c < 11:
+			tn, v := []string{"t", "u"}[rnd.Intn(2)], rnd.Intn(7)-2
+			say("TagPeer(%s, %s, %d)", p.name, tn, v)
+			cm.TagPeer(p.id, tn, v)
+			p.exist, p.plain[tn] = true, v
+		case c < 12:
+			tn := []string{"t", "u"}[rnd.Intn(2)]
+			say("UntagPeer(%s, %s)", p.name, tn)
+			cm.UntagPeer(p.id, tn)
+			delete(p.plain, tn)
+		case c < 13:
+			say("UpsertTag(%s, t, +2)", p.name)
+			cm.UpsertTag(p.id, "t", func(x int) int { return x + 2 })
+			p.exist, p.plain["t"] = true, p.plain["t"]+2
+		case c < 15:
+			cn := []*vfC14Conn{p.conn, p.conn2}[rnd.Intn(2)]
+			say("Connected(%s)", cn.name)
+			nf.Connected(nil, cn)
+			p.exist, p.open[cn.name] = true, true
+		case c < 16:
+			cn := []*vfC14Conn{p.conn, p.conn2}[rnd.Intn(2)]
+			say("Disconnected(%s)", cn.name)
+			nf.Disconnected(nil, cn)
+			if p.open[cn.name] {
+				delete(p.open, cn.name)
+				if len(p.open) == 0 {
+					drop(p) // the entry goes with the last connection, and every tag with it
+				}
+			}
+		case c < 18:
+			say("clock +1 unit")
+			clk.Add(vfC14Unit)
+			round(clk.Now())
+		default:
+			// a command left in the decayer's queue while the clock moves: the loop may take the tick or the
+			// command first.  Only a pair that exists keeps the ledger simple (no entry creation to guess).
+			if dt.closed || !p.exist {
+				continue
+			}
+			delta := rnd.Intn(5) + 1
+			say("%s.Bump(%s, %d) racing clock +1 unit", dt.name, p.name, delta)
+			res.Inc("racing_steps", 1)
+			// order A: bump, then the round; order B: the round, then the bump
+			outcome := func(bumpFirst bool) int {
+				var v *connmgr.DecayingValue
+				if cur, ok := p.dec[dt.name]; ok {
+					c := *cur
+					v = &c
+				}
+				nowB, nowT := now, now.Add(vfC14Unit)
+				bump := func(at time.Time) {
+					if v == nil {
+						v = &connmgr.DecayingValue{Tag: dt.tag, Peer: p.id, LastVisit: at, Added: at}
+					}
+					v.Value, v.LastVisit = dt.bump(*v, delta), at
+				}
+				decay := func() {
+					if v == nil || dt.next.After(nowT) {
+						return
+					}
+					if after, rm := dt.decay(*v); rm {
+						v = nil
+					} else {
+						v.Value, v.LastVisit = after, nowT
+					}
+				}
+				if bumpFirst {
+					bump(nowB)
+					decay()
+				} else {
+					decay()
+					bump(nowT)
+				}
+				if v == nil {
+					return vfC14Absent
+				}
+				return v.Value
+			}
+			alt = map[string][]int{p.name + "/" + dt.name: {outcome(true), outcome(false)}}
+			if err := dt.tag.Bump(p.id, delta); err != nil {
+				fail("L2:decay-api", "Bump error", false, true, i)
+				return
+			}
+			saved := p.dec[dt.name]
+			delete(p.dec, dt.name) // the raced pair is taken from the observation; every other pair decays as usual
+			clk.Add(vfC14Unit)
+			round(clk.Now())
+			if saved != nil {
+				p.dec[dt.name] = saved
+			}
+		}
+		synctest.Wait()
+		res.Count(0, 1)
+		if !audit(i, alt) {
+			return
+		}
+	}
+	res.Count(1, 0)
+	res.Case(fmt.Sprintf("decay-%d", h))
+}
+
+const vfC14Absent = -1 << 30
